@@ -30,6 +30,23 @@ PROPS = {
         "trusted_base": TB_COMMON,
         "assumptions": ASSUME_COMMON,
     },
+    "C18": {
+        "rule": "10^k (k=0..5000) through the real ten_to_the_uint (hook) and digits() of 10^k, 10^k+1, -(10^k-1); all unscaled values with <= 5 digits x scales -6..6 "
+                "(accessor round trip through every constructor/view, normalized) - complete in thorough, 1/23 slice in quick; the real count_decimal_digits_uint and "
+                "get_rounding_term (hooks) on 2^(b-1) and 2^b-1 for every bit length b <= 40000 (quick) / 400000 (thorough) plus random b up to 2*10^6 / 2*10^7 - the extreme "
+                "inputs for the f64 digit estimate, judged by 10^(d-1) <= n < 10^d; random decimals up to 5000 digits with up to 5000 trailing zeros, exact scale / precision "
+                "extensions by 0..5000. Non-trivial = multi-digit / has trailing zero / actually extends.",
+        "trusted_base": TB_COMMON + ["f64 arithmetic of the digit estimate: the scalar condition 10^est(b) <= 2^b is proved for the real-valued formula and exercised on the real code for every bit length in range, not proved for f64"],
+        "assumptions": ASSUME_COMMON,
+    },
+    "C07": {
+        "rule": "decimals of 1..3000 digits (both signs, scales -3000..3000) x p in 1..digits+5 (emphasis p = digits-1, digits, digits+1, 1) x 7 modes, through "
+                "with_precision_round, Context::round_decimal / round_decimal_ref (decimal, reference, BigInt), BigDecimalRef::round_with_context, Context::add_refs / "
+                "add_refs_into (sums needing more than p digits) and with_prec (each magnitude with both signs); the discarded tail is 5000..0 / 4999..9 / 5000..01 / 0..0 / 9..9 / random, "
+                "heads include all-nines (carry into a new digit). Observable: exact (int, scale); for sums the value. Non-trivial = non-zero input with more than p digits.",
+        "trusted_base": TB_COMMON + ["f64 digit estimate inside get_rounding_term/digits(): scalar condition EstOK (see C18)"],
+        "assumptions": ASSUME_COMMON,
+    },
 }
 
 
